@@ -18,7 +18,7 @@ MANIFEST = dict(
    level="model_checking", design_ref="DESIGN.md 8 (C08), 7 (Arena)",
    technique="TLA+ model of the arena/controller/rings (TLC, all interleavings at yield-point granularity) + TLC-generated schedules replayed on the real code through cfg(kira_verif) yield points + TLC trace validation against the property-level monitor P_C08",
    text="TLC explores every interleaving of the gameplay create path with the audio thread's remove-and-add step for both storage flavours against the property-level monitor (capacity accounting, count, prompt removal, destruction thread, stale ids) and structural invariants; TLC-generated schedules (random, directed witnesses, and the schedule that broke the code before the fix) are forced onto the real library through yield points and every recorded session is validated by TLC against P_C08. Exhaustive for small capacities/item counts, sampled beyond.",
-   note="Trusted: atomic_arena try_reserve/free linearizable for one reserving and one freeing thread; rtrb rings; SeqCst atomics. Racy replays target main-track sounds, clocks and modulators; the other five arenas run the same generic code and are covered by sequential histories. Listener count is not observable through the public API.")
+   note="atomic_arena's try_reserve/free CAS loops are model-checked at access granularity for one reserving and one freeing thread (ArenaCtl.tla) and used as single steps in Arena.tla. Trusted: rtrb rings; SeqCst atomics. Racy replays target main-track sounds, clocks and modulators; the other five arenas run the same generic code and are covered by sequential histories. Listener count is not observable through the public API.")
 KINDS = ["sound", "tsound", "subtrack", "nested", "send", "clock", "modulator", "listener"]
 
 
@@ -66,6 +66,17 @@ def model_check(res, tier):
             cfgw = write_cfg("Arena_%s_%s.cfg" % (flav, w),
                              cfg_text(2, 3, selfref, 3, False, merged, 3, "VIEW View\nINVARIANT " + w))
             tlc_check("MC_Arena.tla", cfgw, workers=4, timeout=600, expect_violation=w, tag="c08w")
+    # the controller's CAS loops at atomic-access granularity (justifies try_reserve / free as single steps above)
+    n2, ops2 = (3, 7) if tier == "quick" else (4, 10)
+    ctl = "SPECIFICATION Spec\nCONSTANTS\n  N = %d\n  MaxOps = %d\n%s\nCHECK_DEADLOCK FALSE\n"
+    st = tlc_check("ArenaCtl.tla", write_cfg("ArenaCtl.cfg", ctl % (n2, ops2, "INVARIANTS NoDuplicates Partition ReservedNotFree")),
+                   workers=8, timeout=3000, tag="c08ctl")
+    if st["violated"]:
+        res.drift.append({"model": "ArenaCtl", "invariant": st["violated"]})
+    res.add_mc("ArenaCtl (atomic_arena controller, access granularity) N=%d ops<=%d" % (n2, ops2), st)
+    for w in ("W_Contention", "W_PushRetry"):
+        tlc_check("ArenaCtl.tla", write_cfg("ArenaCtl_%s.cfg" % w, ctl % (3, 6, "INVARIANT " + w)), workers=4, timeout=600,
+                  expect_violation=w, tag="c08ctlw")
     # the model of the code as it was before the fix must exhibit the defect (the spec can see it)
     cfgo = write_cfg("Arena_old.cfg", cfg_text(2, 3, False, 2, False, False, 3, "VIEW View\nINVARIANT NoPanic"))
     tlc_check("MC_Arena.tla", cfgo, workers=4, timeout=600, expect_violation="NoPanic", tag="c08old")
@@ -184,7 +195,7 @@ def run(tier):
     res.notes["racy_sessions"] = sum(1 for s in scen if s["racy"])
     res.notes["sequential_sessions"] = sum(1 for s in scen if not s["racy"])
     res.assumptions = [
-        "atomic_arena's Controller::try_reserve / free are linearizable for one reserving and one freeing thread (modelled as atomic steps)",
+        "atomic_arena's Controller::try_reserve / free take effect atomically at their CAS for one reserving and one freeing thread (checked separately at access granularity in ArenaCtl.tla; Arena.tla uses them as single steps)",
         "rtrb rings and triple_buffer behave as specified (dependencies are not re-verified)",
         "sequentially consistent atomics (kira uses SeqCst throughout)",
         "the racy (yield-point) replays target the main track's sounds, the clocks and the modulators; the other arenas share the same generic storage code and are exercised sequentially"]
